@@ -126,25 +126,25 @@ def build(cfg, dtype=torch.float64):
             o, ri = cfg['o_dim'], cfg['ri_dim']
             return m, lambda ins: [m((ins[0], [to_layout(t, o, ri) for t in ins[1:]]))]
         if k in ('afb2d', 'afb2d_nonsep'):
-            filts = _filters(cfg, False)
+            # filters are prepared once, in the requested precision, so that calls never touch the
+            # process-wide default dtype (which would race between threads)
+            h0, h1 = _filters(cfg, False)
+            filts = ll.prep_filt_afb2d(h0, h1) if k == 'afb2d' else ll.prep_filt_afb2d_nonsep(h0, h1)
             fn = ll.afb2d if k == 'afb2d' else ll.afb2d_nonsep
-            dt = dtype
 
             def f(ins):
-                with dwtu.default_dtype(dt):
-                    y = fn(ins[0], filts, cfg['mode'])
+                y = fn(ins[0], filts, cfg['mode'])
                 return [y.reshape(y.shape[0], -1, 4, y.shape[-2], y.shape[-1])]
             return None, f
         if k in ('sfb2d', 'sfb2d_nonsep'):
-            filts = _filters(cfg, True)
-            dt = dtype
+            g0, g1 = _filters(cfg, True)
+            filts = ll.prep_filt_sfb2d(g0, g1) if k == 'sfb2d' else ll.prep_filt_sfb2d_nonsep(g0, g1)
 
             def f(ins):
                 c = ins[0]
-                with dwtu.default_dtype(dt):
-                    if k == 'sfb2d':
-                        return [ll.sfb2d(c[:, :, 0], c[:, :, 1], c[:, :, 2], c[:, :, 3], filts, cfg['mode'])]
-                    return [ll.sfb2d_nonsep(c, filts, cfg['mode'])]
+                if k == 'sfb2d':
+                    return [ll.sfb2d(c[:, :, 0], c[:, :, 1], c[:, :, 2], c[:, :, 3], filts, cfg['mode'])]
+                return [ll.sfb2d_nonsep(c, filts, cfg['mode'])]
             return None, f
         if k == 'scat1':
             m = pw.ScatLayer(biort=cfg['biort'], magbias=cfg['bias'], combine_colour=cfg['colour'])
